@@ -607,6 +607,9 @@ class Sym:
     def max_abs_coeff(s):
         return max((abs(c) for c in s.t.values()), default=Fraction(0))
 
+    def __format__(s, spec):
+        return repr(s)
+
     def __repr__(s):
         if not s.t:
             return '0'
